@@ -430,10 +430,56 @@ func derivedScript[E any](vals func(id, n int) []E, probe func(k int) E, c deriv
 			fmt.Fprint(&b, s.ContainsValue(probe(r)), s.GetIndex(probe(k*100+r)), s.GetSize(), " ")
 			s.RemoveValue(probe(k*100 + r))
 		}
-		fmt.Fprint(&b, s.AsArray())
+		for _, x := range s.AsArray() {
+			fmt.Fprint(&b, showElem(x), " ")
+		}
 		return b.String()
 	}
 	return
+}
+
+// showElem prints an element without its addresses
+func showElem(x any) string {
+	if p, ok := x.(*part); ok {
+		return p.String()
+	}
+	return fmt.Sprint(x)
+}
+
+// part is a class-like element: a pointer whose attributes are reachable through its getters only.  Its sub-parts
+// nest, so ranking two parts walks down through getters and Go arrays and drives the collator's depth counter
+// close to (but never beyond) the default maximum.
+type part struct {
+	name  string
+	parts []*part
+}
+
+func (v *part) GetName() string   { return v.name }
+func (v *part) GetParts() []*part { return v.parts }
+func (v *part) String() string {
+	if len(v.parts) == 0 {
+		return v.name
+	}
+	return v.name + "<" + v.parts[0].String() + ">"
+}
+
+// chain makes a part nested depth levels deep; two chains differ at the very bottom only
+func chain(depth int, leaf string) *part {
+	result := &part{name: leaf}
+	for level := 0; level < depth; level++ {
+		result = &part{name: "a", parts: []*part{result}}
+	}
+	return result
+}
+
+const partDepth = 12 // well inside the default maximum of 16 for one traversal, beyond it as soon as two traversals add up
+
+func partsFor(id, n int) []*part {
+	out := make([]*part, n)
+	for i := range out {
+		out[i] = chain(partDepth, fmt.Sprintf("leaf-%02d", core.Mix(uint64(id)*131+uint64(i))%50))
+	}
+	return out
 }
 
 func runDerived[E any](vals func(id, n int) []E, probe func(k int) E, c derivedCase) *core.Violation {
@@ -493,6 +539,8 @@ func recsFor(id, n int) []rec {
 func execDerived(c derivedCase, _ core.Source) (res core.Result) {
 	if c.Elem == "int" {
 		res.Violation = runDerived(intsFor, func(k int) int { return 1000 + k }, c)
+	} else if c.Elem == "part" {
+		res.Violation = runDerived(partsFor, func(k int) *part { return chain(partDepth, fmt.Sprintf("probe-%04d", k)) }, c)
 	} else if c.Elem == "rec" {
 		res.Violation = runDerived(recsFor, func(k int) rec { return rec{Tags: []int{1000, k}, N: k} }, c)
 	} else {
@@ -680,7 +728,7 @@ func TestC19(t *testing.T) {
 	defer r.End()
 	core.Stress(r, core.Check[indepCase]{Name: "independent-instances", Gen: genIndep, Exec: execIndep, HangLimit: 300 * time.Second}, r.N(150, 2000))
 	core.Stress(r, core.Check[derivedCase]{Name: "derived-instances", Gen: func(s core.Source) derivedCase {
-		return derivedCase{Elem: core.Pick(s, []string{"int", "ints", "rec"}, "elem"), Seed: s.Choose(1000, "seed"), Rounds: 20 + s.Choose(60, "rounds")}
+		return derivedCase{Elem: core.Pick(s, []string{"int", "ints", "rec", "part"}, "elem"), Seed: s.Choose(1000, "seed"), Rounds: 20 + s.Choose(60, "rounds")}
 	}, Exec: execDerived}, r.N(40, 600))
 	core.Stress(r, core.Check[convertedCase]{Name: "converted-instances", Gen: func(s core.Source) convertedCase {
 		return convertedCase{Seed: s.Choose(1000, "seed"), Size: s.Choose(12, "size"), Rounds: 10 + s.Choose(40, "rounds")}
